@@ -18,6 +18,15 @@ CLAIMED = {
               'against the model on boundary/stratified/random int32 values under UBSan. PARTIAL: the floating half of the property (modp_dtoa, fast_atof) has no theorem yet and is not decided by this check.'),
         note=('Trusted: Lean kernel; axioms propext, Quot.sound, Classical.choice; hand-written model tied by correspondence; regexp extraction of the digit table; harness/num.cpp; '
               'int arithmetic modelled on unbounded Int with a proved range statement. binary64 arithmetic is not formalised.')),
+    'C09': dict(
+        category='proof', design_ref='DESIGN.md section 7 C09',
+        technique='Lean 4 theorems over a hand-written model of the date/time codecs (kernel-evaluated table of all 47482 days + omega for seconds/ms + list lemmas for the fixed-width text), constants regenerated from field.hpp, differential correspondence against the real field classes and libc gmtime_r',
+        text=('Kernel-checked: C09_timestamp (every instant 1970-01-01..2100-01-01 at ms precision renders to text that parses back to the same instant), C09_timeonly, C09_dateonly '
+              '(UTCDateOnly/LocalMktDate), C09_monthyear (6-character form), C09_logstamp_secs (seconds field of the log stamp is t%60, always 00..59), day_facts (for every day of the range the '
+              'code\'s day arithmetic inverts the proleptic Gregorian calendar; 24 chunks evaluated by the kernel). mon_days[] and the 86400/3600/60 constants are extracted from the source on every run. '
+              'Correspondence: Field<UTCTimestamp/UTCTimeOnly/UTCDateOnly/LocalMktDate/MonthYear> print+parse, gmtime_r and GetTimeAsStringMS against the model (thorough: all days).'),
+        note=('Trusted: Lean kernel; propext, Quot.sound, Classical.choice; the model of gmtime_r (civilFromDays) is validated against libc, not proved about libc; local time zones are out of scope; '
+              'harness/timeh.cpp; tools/*.py. The 8-character MonthYear form shares the UTCDateOnly code path (C09_dateonly).')),
 }
 
 PENDING_REASON = 'not yet covered: the Lean model and correspondence harness for this property have not been built in this framework yet (see DESIGN.md section 7 for the plan); no other technique is substituted'
